@@ -36,7 +36,7 @@ def fresh_results(version):
     return enc, out
 
 
-CORE_OPS = ('iter_errors', 'decode', 'lazy', 'encode', 'st-valid')
+CORE_OPS = ('iter_errors', 'decode', 'lazy', 'st-valid')
 
 
 def core_events(version):
@@ -102,9 +102,14 @@ def run_shard(shard, acc):
     frontier = [()]
     level = 0
     transitions = 0
+    max_states = 24          # bound of the merged search (pass A is unaffected); reported when hit
+    capped_b = False
     while frontier and level < 6:
         nxt = []
         for hist in frontier:
+            if len(seen) >= max_states:
+                capped_b = True
+                break
             for ev in evs:
                 h2 = hist + (ev,)
                 with acc.guard(60):
@@ -120,9 +125,10 @@ def run_shard(shard, acc):
     acc.st(states=len(seen), transitions=transitions)
     acc.cnt('passB_states_%s' % version, len(seen))
     acc.cnt('passB_levels_%s' % version, level)
-    acc.cnt('passB_fixpoint_%s' % version, 0 if frontier else 1)
+    acc.cnt('passB_fixpoint_%s' % version, 0 if (frontier or capped_b) else 1)
+    acc.cnt('passB_state_cap_hit_%s' % version, 1 if capped_b else 0)
     acc.sample({'pass': 'B', 'version': version, 'fingerprint_states': len(seen), 'levels': level,
-                'fixpoint_reached': not frontier,
+                'fixpoint_reached': not frontier and not capped_b, 'state_cap_hit': capped_b,
                 'a_deepest_state_history': ['%s(%s)' % e for e in max(seen.values(), key=len)]})
 
 
@@ -156,4 +162,4 @@ def replay(case):
 def bounds(tier, seed):
     return {'events': len(P.events('1.0')), 'unmerged_depth': 'all histories of length 2 over all events' + (
                 '' if tier == 'quick' else '; all histories of length 3 over the %d core events (%s)' % (len(core_events('1.0')), ', '.join(CORE_OPS))),
-            'merged_bfs': 'to fixpoint of the object-graph fingerprint (level cap 6)', 'versions': ['1.0', '1.1']}
+            'merged_bfs': 'to fixpoint of the object-graph fingerprint, at most 6 levels and 24 fingerprint states (evidence says whether the fixpoint was reached)', 'versions': ['1.0', '1.1']}
